@@ -732,14 +732,40 @@ def run(ctx):
     rng = ctx.rng
     runner = Runner(ctx)
     arm_known(ctx)
-    stray_regression(runner)
-    known_elim_stray(runner)
+    refused = []
+
+    def stage(name, fn):
+        """A fixed stage builds its operands from valid definitions; a constructor that refuses one is reported (with
+        the stage as the replay) and the other stages still run."""
+        try:
+            return fn()
+        except Exception as e:  # noqa: BLE001
+            refused.append(name)
+            ctx.violation(f"{name}: a valid NFA definition needed as an operand is refused or the stage breaks: "
+                          f"{type(e).__name__}: {e}", {"kind": "stage", "stage": name}, confirmed=True)
+            return None
+
+    def mk_or_none(d):
+        try:
+            return mk_nfa(d)
+        except Exception as e:  # noqa: BLE001
+            if len(refused) < 5:
+                refused.append("operand")
+                ctx.violation(f"the constructor refuses a valid NFA definition {d!r:.300}: {type(e).__name__}: {e}",
+                              {"kind": "operand_refused", "def": repr(d)}, confirmed=True)
+            return None
+
+    stage("stray_regression", lambda: stray_regression(runner))
+    stage("known_elim_stray", lambda: known_elim_stray(runner))
     # (i) minimal left_quotient reproducer (fixed finding, must pass)
-    A = NFA(states={0, 1}, input_symbols={"a"}, transitions={0: {"a": {1}}}, initial_state=0, final_states={1})
-    B = NFA(states={0}, input_symbols={"a"}, transitions={}, initial_state=0, final_states=set())
-    runner.submit("left_quotient", [A, B], ("corpus",))
+
+    def lq():
+        A = NFA(states={0, 1}, input_symbols={"a"}, transitions={0: {"a": {1}}}, initial_state=0, final_states={1})
+        B = NFA(states={0}, input_symbols={"a"}, transitions={}, initial_state=0, final_states=set())
+        runner.submit("left_quotient", [A, B], ("corpus",))
+    stage("left_quotient_reproducer", lq)
     # (ii) every operation on every ordered pair of corner operands
-    corners = [mk_nfa(d) for d in corner_operands()]
+    corners = [x for x in (mk_or_none(d) for d in corner_operands()) if x is not None]
     for x in corners:
         for op in UNARY:
             runner.submit(op, [x], ("corpus",))
@@ -751,7 +777,9 @@ def run(ctx):
     nmax = 4
     for _ in range(ctx.n(260, 6000)):
         da, db = rand_pair(rng, 5 if ctx.tier == "thorough" and rng.random() < 0.25 else nmax)
-        all_ops_on_pair(runner, mk_nfa(da), mk_nfa(db), ("random_pair",))
+        xa, xb = mk_or_none(da), mk_or_none(db)
+        if xa is not None and xb is not None:
+            all_ops_on_pair(runner, xa, xb, ("random_pair",))
     # random expression trees of depth 2
     for _ in range(ctx.n(400, 10000)):
         rand_tree(runner, rng, nmax)
@@ -782,6 +810,18 @@ def replay(ctx, case):
         out = runner.submit(case["op"], operands, ("replay",))
         runner.flush()
         print("replay:", case["op"], "->", "NFA" if out[0] == "ok" else f"raised {out[2]}", "| word:", repr(case.get("word")))
+    elif case.get("kind") == "operand_refused":
+        try:
+            mk_nfa(load_def(case["def"]))
+        except Exception as e:  # noqa: BLE001
+            ctx.violation(f"the constructor refuses a valid NFA definition: {type(e).__name__}: {e}", dict(case), confirmed=True)
+    elif case.get("kind") == "stage":
+        runner = Runner(ctx)
+        try:
+            {"stray_regression": stray_regression, "known_elim_stray": known_elim_stray}.get(case["stage"], stray_regression)(runner)
+            runner.flush()
+        except Exception as e:  # noqa: BLE001
+            ctx.violation(f"{case['stage']}: {type(e).__name__}: {e}", dict(case), confirmed=True)
     else:
         print("replay: nothing to re-run for kind", case.get("kind"))
     print("replay:", "VIOLATION reproduced" if ctx.violations else "no disagreement")
